@@ -91,7 +91,9 @@ func (f *WithSlots) Call(s *slip.Scope, args slip.List, depth int) (result slip.
 		}
 	}
 	for i := 2; i < len(args); i++ {
-		result = slip.EvalArg(ns, args, i, d2)
+		if result = slip.EvalArg(ns, args, i, d2); slip.IsExit(result) {
+			break
+		}
 	}
 	return
 }
